@@ -109,10 +109,12 @@ def gen_cases(tier):
     for a, b in (("0.5", "0.1"), ("1.5", "0.2"), ("2", "0.5")):
         for n in (2, 3, 5):
             cases.append({"kind": "linspace", "args": [a, b, str(n)], "input": f"linspace({a}, {b}, {n})"})
-    for a, b, st in (("3", "1", "-0.5"), ("2", "0.5", "-0.5"), ("1.3", "1", "-0.1"), ("0.9", "0", "-0.3"), ("4", "1", "-1")):
+    for a, b, st in (("3", "1", "-0.5"), ("2", "0.5", "-0.5"), ("1.3", "1", "-0.1"), ("0.9", "0", "-0.3"), ("4", "1", "-1"),
+                     # stops that do NOT lie on the lattice start + k*step
+                     ("5", "1.5", "-1"), ("1", "-0.1", "-0.25"), ("2", "0.9", "-0.5"), ("3.3", "0.05", "-0.4"), ("7", "2.75", "-1.5")):
         cases.append({"kind": "range", "args": [a, b, st], "input": f"range({a}, {b}, {st})"})
         cases.append({"kind": "range", "args": [a, b, st], "input": f"arange({a},{b},{st})"})
-    for inp in ("linspace(1, -1, 3)", "linspace(0.5, -0.1, 4)", "range(1, -1, -0.5)", "linspace(-0.2, -0.1, 2)", "[0.1, -0.0001]"):
+    for inp in ("range(0.3, -0.45, -0.5)", "range(1, -0.6, -0.5)", "linspace(1, -1, 3)", "linspace(0.5, -0.1, 4)", "range(1, -1, -0.5)", "linspace(-0.2, -0.1, 2)", "[0.1, -0.0001]"):
         cases.append({"kind": "negative", "args": [inp], "input": inp})
     # --- linspace
     lm = ["0.1", "0.2", "0.5", "1.5"]
